@@ -376,6 +376,7 @@ type Clause struct {
 	Loop  int // for invariant/decreases
 	Cand  bool // inferred candidate (Houdini)
 	Site  string // for "at call": callee#ordinal
+	LoopSel string // alternative loop selector, e.g. "range:jsonConfig.IgnoreFileErr#0"
 	File  string
 	Line  int
 }
@@ -740,8 +741,14 @@ func (cs *ContractSet) ParseContractText(pkgPath, file, text string) error {
 					return errf(fmt.Errorf("bad loop clause"))
 				}
 				n, err := strconv.Atoi(fs[0])
+				loopSel := ""
 				if err != nil {
-					return errf(err)
+					if strings.HasPrefix(fs[0], "range:") || strings.HasPrefix(fs[0], "for:") {
+						loopSel = fs[0]
+						n = -1
+					} else {
+						return errf(err)
+					}
 				}
 				kind := fs[1]
 				rest := strings.TrimSpace(strings.TrimPrefix(strings.TrimSpace(strings.TrimPrefix(rc.rest, fs[0])), kind))
@@ -750,7 +757,7 @@ func (cs *ContractSet) ParseContractText(pkgPath, file, text string) error {
 				if err != nil {
 					return errf(err)
 				}
-				cl := &Clause{Kind: kind, Tag: tag, Props: props, Src: body, Expr: e, Loop: n, File: file, Line: rc.line}
+				cl := &Clause{Kind: kind, Tag: tag, Props: props, Src: body, Expr: e, Loop: n, LoopSel: loopSel, File: file, Line: rc.line}
 				switch kind {
 				case "invariant":
 					cur.Invs = append(cur.Invs, cl)
